@@ -251,6 +251,8 @@ def all_variants():
                 "note": "a+b -> b+a, a*b -> b*a (numeric operands), a==b -> b==a everywhere"})
     out.append({"id": "eq-all-appends-as-method", "type": "transform", "name": "append", "fires": [], "silent": list(ALLP),
                 "note": "every `x += [e]` rewritten as `x.append(e)`"})
+    out.append({"id": "eq-all-registries-aliased", "type": "transform", "name": "alias", "fires": [], "silent": list(ALLP),
+                "note": "every method works on local aliases of the registries (reg = self._g.attrs[k]) instead of spelling them out"})
     for p in sorted(glob.glob(os.path.join(VERIF, "seeded", "fix-reverts", "F*.diff"))):
         k = os.path.basename(p)[:-5]
         out.append({"id": "revert-" + k, "type": "diff", "path": os.path.relpath(p, VERIF), "reverse": True,
